@@ -15,6 +15,15 @@ def pyFloorDiv (x y : α) : α := ofInt (Arith.floor (x / y))
 def pyMod (x y : α) : α := x - y * ofInt (Arith.floor (x / y))
 def pySquare (x : α) : α := x * x
 def pyFloor (x : α) : α := ofInt (Arith.floor x)
+/-- `np.round` (half to even) as an integer -/
+def pyRoundHalfEven (x : α) : Int :=
+  let f := Arith.floor x
+  let r := x - ofInt f
+  let half : α := lit (5, 1)
+  if r < half then f else if half < r then f + 1 else if f % 2 = 0 then f else f + 1
+/-- `int(x)` of a float: truncation toward zero -/
+def pyTruncInt (x : α) : Int :=
+  if x < (n# 0) then -(Arith.floor (-x)) else Arith.floor x
 /-- `np.maximum(a, b)` -/
 def pyMaximum (a b : α) : α := if a < b then b else a
 /-- `np.minimum(a, b)` -/
